@@ -447,7 +447,8 @@ func genC02(c *h.Ctx) {
 	kinds := []string{"src", "eval", "compile", "gocall", "goobject", "goname", "strfn"}
 	// fixed odd sources for every kind (programs without statements, comments swallowing what the API appends, …)
 	for _, odd := range []string{"", " ", "//x", "/*", "/**/", "//", "f //", "new", "new ", "new //x", ";", "{}", "()", ")", "a.b", "a[", "this", "null", "undefined", "Math.abs", "Math.abs //", "\n", "\u2028", "0", "'s'", "function(){}", "(function(){})", "x => x",
-		"})(function(){", "}, function(){", "a){}) ; (function(b", "}", "{", ") {", "*/", "(", "[", "(?", "\\", "%", "%E0%A4%A", "{\"a\":", "[1,", "1e", "0x", "-", "T", "2000-", "Infinity", "+"} {
+		"})(function(){", "}, function(){", "a){}) ; (function(b", "}", "{", ") {", "*/", "(", "[", "(?", "\\", "%", "%E0%A4%A", "{\"a\":", "[1,", "1e", "0x", "-", "T", "2000-", "Infinity", "+",
+		"var o = {}; o.e\u0301 = 1", "o.a\u0663", "var o = {}; o.\u2118", "({}).a\u200d", "x\u0301", "var \u2118 = 1", "a.\u0663", "o.\\u0061", "o.if\nvar b", "({get if(){}})", "o.a\u0085.b"} {
 		for _, k := range kinds {
 			c.Add(k+" "+hex.EncodeToString([]byte(odd)), "source:"+k)
 		}
@@ -461,7 +462,22 @@ func genC02(c *h.Ctx) {
 	m := c.N(6000, 400000)
 	for i := 0; i < m; i++ {
 		var b []byte
-		switch r.Intn(5) {
+		switch r.Intn(6) {
+		case 5: // a character of an unusual Unicode class spliced in next to an identifier or a `.`
+			s := corpus[r.Intn(len(corpus))]
+			odd := []string{"\u0301", "\u093f", "\u0663", "\u203f", "\u2118", "\u2160", "\u200d", "\u200c", "\u0085", "\u180e", "\ufeff", "\U00010400", "\U0001d7ce", "\xed\xa0\x80", "\u00aa", "\u02b0", "\u0345", "\u1885", "\u309b", "\u00b7", "\u0387", "\u19da", "\\u0301", "\\u{41}"}
+			var at []int
+			for j := 0; j < len(s); j++ {
+				c := s[j]
+				if c == '.' || c == '_' || c == '$' || 'a' <= c && c <= 'z' || 'A' <= c && c <= 'Z' {
+					at = append(at, j+1)
+				}
+			}
+			if len(at) == 0 {
+				at = []int{0}
+			}
+			p := at[r.Intn(len(at))]
+			b = []byte(s[:p] + odd[r.Intn(len(odd))] + s[p:])
 		case 0: // random bytes
 			b = make([]byte, 1+r.Intn(24))
 			for j := range b {
